@@ -10,7 +10,7 @@ from .. import hir as H
 from .. import paths as P
 from .. import tir as T
 from ..facts import nhir, walk
-from ..interp import Interp, Opaque, Unsupported, Var
+from ..interp import Diverged, Interp, Opaque, Unsupported, Var
 
 META = ("other",
         "C06.R1 Condition::add unwraps a group only under members == 1 and not negated; R2 ConditionHolder::add_condition "
@@ -84,7 +84,7 @@ def bind_let(it, stmt, env):
         pass
 
 
-def check_add(run, f, cfg):
+def check_add_paths(run, f, cfg):
     name = COND + "::add"
     fn = f.fns.get(name)
     if fn is None:
@@ -126,11 +126,74 @@ def check_add(run, f, cfg):
     run.floor("C06.R1", "add-unwrap-sites", n_unwrap, 1, cfg)
 
 
+def _clone_group(c):
+    return {"negate": c["negate"], "condition_type": c["condition_type"], "conditions": list(c["conditions"])}
+
+
+def _same_group(a, b):
+    return isinstance(a, dict) and a.get("negate") == b["negate"] and a.get("condition_type") == b["condition_type"] and \
+        len(a.get("conditions") or []) == len(b["conditions"]) and all(x is y for x, y in zip(a["conditions"], b["conditions"]))
+
+
+def _interp(f):
+    it = Interp(f)
+    def into(it_, a):
+        v = a[0]
+        if isinstance(v, dict) and "conditions" in v:
+            return Var(CE + "::Condition", [v])          # impl From<Condition> for ConditionExpression
+        return v
+    it.builtins["core::convert::Into::into"] = into
+    return it
+
+
+def check_add(run, f, cfg):
+    """R1 as a complete table: Condition::add(self, x) for every shape of self (negate x type x 0..3 members) and every
+    operand (an expression, or a group of every shape) appends exactly one member - the group's only member when the
+    operand is a non-negated single-member group, the operand itself otherwise - and changes nothing else.  The function
+    body is interpreted, so its syntactic form does not matter; outside the interpreter's fragment the path rules apply."""
+    name = COND + "::add"
+    if name not in f.fns:
+        run.anchor("C06.R1", "add", "Condition::add not found", cfg)
+        return
+    cells = 0
+    bad = []
+    try:
+        for s0 in abstract_conditions():
+            operands = [("expr", Var(CE + "::SimpleExpr", [Opaque("e")]), None)]
+            for c in abstract_conditions():
+                operands.append(("group", None, c))
+            for kind, val, c in operands:
+                selfv = _clone_group(s0)
+                arg = val if kind == "expr" else Var(CE + "::Condition", [_clone_group(c)])
+                r = _interp(f).call_fn(name, [selfv, arg])
+                cells += 1
+                ok = isinstance(r, dict) and r.get("negate") == s0["negate"] and r.get("condition_type") == s0["condition_type"] and \
+                    len(r["conditions"]) == len(s0["conditions"]) + 1 and all(x is y for x, y in zip(r["conditions"], s0["conditions"]))
+                if ok:
+                    added = r["conditions"][-1]
+                    if kind == "expr":
+                        ok = added is val
+                    elif len(c["conditions"]) == 1 and not c["negate"]:
+                        ok = added is c["conditions"][0]
+                    else:
+                        ok = isinstance(added, Var) and added.d == CE + "::Condition" and _same_group(added.fields[0], c)
+                if not ok:
+                    bad.append("%s.add(%s)" % (describe(s0), "expr" if kind == "expr" else describe(c)))
+    except (Unsupported, Diverged) as e:
+        run.notes.append("Condition::add outside the interpreter's fragment (%s): path rules applied instead" % e)
+        return check_add_paths(run, f, cfg)
+    run.ob("C06.R1", "add:table", not bad,
+           "Condition::add tabulated on %d cells (shape of self x operand): one member appended - a non-negated single-member group is replaced "
+           "by its member (G[x] == x), everything else is kept as it is%s" % (cells, "" if not bad else " - EXCEPT " + ", ".join(bad[:6])),
+           sp=f.fns[name]["sp"], cfg=cfg, detail=bad[:20] or None)
+    run.floor("C06.R1", "add-cells", cells, 272, cfg)
+
+
 def mentions_local(e, name):
     return any(n.get("k") == "local" and n.get("name") == name for n in walk(e))
 
 
-def check_add_condition(run, f, cfg):
+def check_add_condition_paths(run, f, cfg):
     name = CH + "::add_condition"
     fn = f.fns.get(name)
     if fn is None:
@@ -213,6 +276,104 @@ def check_add_condition(run, f, cfg):
         except Unsupported as e:
             run.ob("C06.R2", "add_condition:%s:guard" % action, False, "guard outside the supported fragment: %s" % e, sp=st.get("sp"), cfg=cfg)
     run.floor("C06.R2", "add_condition-actions", nacts, 3, cfg)
+
+
+# ---- three-valued semantics of abstract condition trees (atoms = the opaque members) ------------------------------------------
+
+def _atoms(t, acc):
+    if isinstance(t, dict):
+        for m in t["conditions"]:
+            _atoms(m, acc)
+    elif isinstance(t, Var) and t.d == CE + "::Condition":
+        _atoms(t.fields[0], acc)
+    elif isinstance(t, Var) and t.d == CE + "::SimpleExpr":
+        _atoms(t.fields[0], acc)
+    elif isinstance(t, Opaque):
+        if all(t is not x for x in acc):
+            acc.append(t)
+    else:
+        raise Unsupported("member %r of a condition tree" % (t,))
+    return acc
+
+
+def _ev3(t, val):
+    """Kleene value (True / False / None=unknown) of a condition tree under an assignment of its atoms"""
+    if isinstance(t, Opaque):
+        for a, v in val:
+            if a is t:
+                return v
+        raise Unsupported("unassigned atom")
+    if isinstance(t, Var):
+        return _ev3(t.fields[0], val)
+    vs = [_ev3(m, val) for m in t["conditions"]]
+    if t["condition_type"] == Var(CT + "::Any"):
+        r = True if any(v is True for v in vs) else (None if any(v is None for v in vs) else False)
+    else:
+        r = False if any(v is False for v in vs) else (None if any(v is None for v in vs) else True)
+    if t["negate"]:
+        r = None if r is None else (not r)
+    return r
+
+
+def _and3(a, b):
+    if a is False or b is False:
+        return False
+    if a is None or b is None:
+        return None
+    return True
+
+
+def check_add_condition(run, f, cfg):
+    """R2 as a complete semantic table: for every shape of the stored condition (or an empty holder) and every shape of
+    the addition, the condition stored by ConditionHolder::add_condition has, under every three-valued assignment of the
+    members, the value (stored AND addition).  The body is interpreted; outside the fragment the path rules apply."""
+    name = CH + "::add_condition"
+    if name not in f.fns:
+        run.anchor("C06.R2", "add_condition", "not found", cfg)
+        return
+    cells = 0
+    bad = []
+    try:
+        for add in abstract_conditions():
+            # empty holder
+            hold = {"contents": Var(CHC + "::Empty")}
+            a0 = _clone_group(add)
+            _interp(f).call_fn(name, [hold, a0])
+            cells += 1
+            got = hold["contents"]
+            if not (isinstance(got, Var) and got.d == CHC + "::Condition" and _same_group(got.fields[0], add)):
+                bad.append("Empty + %s" % describe(add))
+            for cur in abstract_conditions():
+                c0, a0 = _clone_group(cur), _clone_group(add)
+                # distinct atoms for the two operands
+                c0["conditions"] = [Opaque("c%d" % i) for i in range(len(c0["conditions"]))]
+                a0["conditions"] = [Opaque("a%d" % i) for i in range(len(a0["conditions"]))]
+                cur_ref, add_ref = _clone_group(c0), _clone_group(a0)
+                hold = {"contents": Var(CHC + "::Condition", [c0])}
+                _interp(f).call_fn(name, [hold, a0])
+                cells += 1
+                got = hold["contents"]
+                if not (isinstance(got, Var) and got.d == CHC + "::Condition"):
+                    bad.append("%s + %s: holder left as %r" % (describe(cur), describe(add), got))
+                    continue
+                atoms = _atoms(cur_ref, []) + _atoms(add_ref, [])
+                extra = [x for x in _atoms(got.fields[0], []) if all(x is not y for y in atoms)]
+                ok = not extra
+                if ok:
+                    for vals in product([True, False, None], repeat=len(atoms)):
+                        val = list(zip(atoms, vals))
+                        if _ev3(got.fields[0], val) != _and3(_ev3(cur_ref, val), _ev3(add_ref, val)):
+                            ok = False
+                            break
+                if not ok:
+                    bad.append("%s + %s" % (describe(cur), describe(add)))
+    except (Unsupported, Diverged) as e:
+        run.notes.append("ConditionHolder::add_condition outside the interpreter's fragment (%s): path rules applied instead" % e)
+        return check_add_condition_paths(run, f, cfg)
+    run.ob("C06.R2", "add_condition:table", not bad,
+           "add_condition tabulated on %d cells (stored shape x added shape, every Kleene assignment of the members): the stored condition always "
+           "denotes (stored AND added)%s" % (cells, "" if not bad else " - EXCEPT " + "; ".join(bad[:6])), sp=f.fns[name]["sp"], cfg=cfg, detail=bad[:20] or None)
+    run.floor("C06.R2", "add_condition-cells", cells, 272, cfg)
 
 
 def eval_conds_take(f, conds, env):
@@ -300,17 +461,20 @@ def check_render(run, f, cfg):
     except KeyError:
         run.anchor("C06.R4", "prepare_condition", "not found", cfg)
         return
-    s = T.project(t.effects, "sql")
-    fl = [a for a in T.flat(s) if a != ("seq", [])]
+    # what prepare_condition writes for an empty holder and for a holder with a condition, by interpreting its body
+    from .. import kw as KW
+    from .. import link as LK
     table = {}
-    if len(fl) == 1 and fl[0][0] == "alt":
-        for g, x in fl[0][1]:
-            vs = T.pat_variants(g.get("pat") or {})
-            for v in vs:
-                table[v.rsplit("::", 1)[-1]] = T.show(x)
-    kw = t.params[2][0] if len(t.params) > 2 else "keyword"
-    run.ob("C06.R4", "render:Empty", table.get("Empty", "x") == "", "an empty holder renders nothing (no dangling keyword)", sp=t.fn["sp"], cfg=cfg, detail=table.get("Empty"))
-    run.ob("C06.R4", "render:Condition", table.get("Condition", "").replace("local ", "") == "' ' <STR %s> ' ' @prepare_condition_where" % kw,
+    dialect = [d for d, adt in LK.BACKENDS.items() if adt in f.adts][0]
+    linker = LK.Linker(f, dialect)
+    try:
+        table["Empty"] = KW.render(f, linker, QB, "prepare_condition", [{"contents": Var(CHC + "::Empty")}, "KW"])
+        table["Condition"] = KW.render(f, linker, QB, "prepare_condition", [{"contents": Var(CHC + "::Condition", [Opaque("c")])}, "KW"])
+    except (Unsupported, Diverged) as e:
+        run.anchor("C06.R4", "prepare_condition", "outside the interpreter's fragment: %s" % e, cfg)
+        return
+    run.ob("C06.R4", "render:Empty", table.get("Empty") == "", "an empty holder renders nothing (no dangling keyword)", sp=t.fn["sp"], cfg=cfg, detail=table.get("Empty"))
+    run.ob("C06.R4", "render:Condition", table.get("Condition") == " KW <prepare_condition_where>",
            "a condition renders as ` <keyword> ` followed by the expression of prepare_condition_where", sp=t.fn["sp"], cfg=cfg, detail=table.get("Condition"))
     # who-may-call to_simple_expr
     callers = set()
@@ -422,7 +586,16 @@ def check_api(run, f, cfg):
         run.anchor("C06.R5", "case-when", "CaseStatement::case not found", cfg)
 
 
-def check_small(run, f, cfg):
+def check_small_paths(run, f, cfg, only=None):
+    if only is not None:
+        class _F:
+            def __getattr__(self, k):
+                return getattr(run, k)
+
+            def ob(self, rule, key, *a, **kw):
+                if key in only:
+                    return run.ob(rule, key, *a, **kw)
+        return check_small_paths(_F(), f, cfg, None)
     for nm, ty in ((COND + "::any", "Any"), (COND + "::all", "All")):
         fn = f.fns.get(nm)
         ok = False
@@ -473,6 +646,62 @@ def check_small(run, f, cfg):
         ps = P.fn_paths(fn["hir"])
         ok = len(ps) == 1 and H.place(ps[0].value) == "self" and not ps[0].calls()
     run.ob("C06.R6", "IntoCondition<Condition>", ok, "a condition is passed through unchanged", sp=fn["sp"] if fn else None, cfg=cfg)
+
+
+def _eq_val(a, b):
+    if isinstance(a, dict) and isinstance(b, dict):
+        return set(a) == set(b) and all(_eq_val(a[k], b[k]) for k in a)
+    if isinstance(a, list) and isinstance(b, list):
+        return len(a) == len(b) and all(_eq_val(x, y) for x, y in zip(a, b))
+    if isinstance(a, Var) and isinstance(b, Var):
+        return a.d == b.d and _eq_val(list(a.fields), list(b.fields))
+    return a is b or (not isinstance(a, (dict, list, Var, Opaque)) and a == b)
+
+
+def check_small(run, f, cfg):
+    """R6 as tables (the bodies are interpreted; outside the fragment the path rules apply)"""
+    fallback = set()
+    # any() / all()
+    for nm, ty in ((COND + "::any", "Any"), (COND + "::all", "All")):
+        key = nm.rsplit("::", 1)[-1]
+        try:
+            r = _interp(f).call_fn(nm, [])
+            ok = isinstance(r, dict) and r.get("negate") is False and r.get("condition_type") == Var(CT + "::" + ty) and r.get("conditions") == []
+            run.ob("C06.R6", key, ok, "Condition::%s() is an empty, non-negated %s group" % (key, ty), sp=(f.fns.get(nm) or {}).get("sp"), cfg=cfg)
+        except (Unsupported, Diverged, KeyError):
+            fallback.add(key)
+    # not()
+    try:
+        bad = []
+        for s0 in abstract_conditions():
+            r = _interp(f).call_fn(COND + "::not", [_clone_group(s0)])
+            if not (isinstance(r, dict) and r.get("negate") == (not s0["negate"]) and r.get("condition_type") == s0["condition_type"] and
+                    len(r["conditions"]) == len(s0["conditions"]) and all(x is y for x, y in zip(r["conditions"], s0["conditions"]))):
+                bad.append(describe(s0))
+        run.ob("C06.R6", "not", not bad, "Condition::not flips negate and nothing else, for every shape of group (double negation cancels)"
+               + ("" if not bad else " - EXCEPT " + ", ".join(bad)), sp=(f.fns.get(COND + "::not") or {}).get("sp"), cfg=cfg)
+    except (Unsupported, Diverged, KeyError):
+        fallback.add("not")
+    # add_option
+    try:
+        bad = []
+        for s0 in abstract_conditions():
+            r = _interp(f).call_fn(COND + "::add_option", [_clone_group(s0), None])
+            if not (isinstance(r, dict) and _same_group(r, s0)):
+                bad.append("%s.add_option(None)" % describe(s0))
+            for c in abstract_conditions():
+                a1 = Var(CE + "::Condition", [_clone_group(c)])
+                a2 = Var(CE + "::Condition", [_clone_group(c)])
+                r1 = _interp(f).call_fn(COND + "::add_option", [_clone_group(s0), ("__some", a1)])
+                r2 = _interp(f).call_fn(COND + "::add", [_clone_group(s0), a2])
+                if not _eq_val(r1, r2):
+                    bad.append("%s.add_option(Some(%s))" % (describe(s0), describe(c)))
+        run.ob("C06.R6", "add_option", not bad, "add_option(None) returns self untouched, add_option(Some(c)) equals add(c), for every shape of self and c"
+               + ("" if not bad else " - EXCEPT " + ", ".join(bad[:6])), sp=(f.fns.get(COND + "::add_option") or {}).get("sp"), cfg=cfg)
+    except (Unsupported, Diverged, KeyError):
+        fallback.add("add_option")
+    # the conversions and whatever could not be tabulated: path rules
+    check_small_paths(run, f, cfg, only=fallback | {"IntoCondition<SimpleExpr>", "IntoCondition<Condition>"})
 
 
 def check(run):
